@@ -492,14 +492,25 @@ impl Engine {
             }
             Op::HReadToEnd { .. } => {
                 self.trace.push(format!("h{}.read_to_end() [pos {} len {}]", slot, h.pos, len));
-                let mut v = Vec::new();
+                // read_to_end appends: the destination may already hold bytes (as with a Cursor)
+                let k = [0usize, 0, 1, 7, 300][self.op_index % 5];
+                let marker: Vec<u8> = (0..k).map(|i| 0xC0 ^ (i as u8)).collect();
+                let mut v = marker.clone();
                 let res = guard("h_read_to_end", || h.stream.read_to_end(&mut v))?;
-                if let Err(e) = res {
-                    return Err(Fail::new("mismatch|h_read_to_end|valid|Ok|Err", format!("read_to_end on {} failed: {}", hp, e)));
-                }
+                let n = match res {
+                    Err(e) => return Err(Fail::new("mismatch|h_read_to_end|valid|Ok|Err", format!("read_to_end on {} failed: {}", hp, e))),
+                    Ok(n) => n,
+                };
                 let data = stream_data(&self.model, &h.path);
+                if v.len() < k || v[..k] != marker[..] {
+                    return Err(Fail::new("mismatch|h_read_to_end|destination_prefix|kept|changed", format!("read_to_end on {} from {} into a vector that already held {} bytes changed those bytes (vector length afterwards {}, expected {})", hp, h.pos, k, v.len(), k + data.len() - h.pos as usize)));
+                }
+                let v = v.split_off(k);
                 if v != data[h.pos as usize..] {
                     return Err(Fail::new("mismatch|h_read_to_end|bytes|model_bytes|other_bytes", describe_diff(&format!("{} read_to_end from {}", hp, h.pos), &data[h.pos as usize..], &v)));
+                }
+                if n != v.len() {
+                    return Err(Fail::new("mismatch|h_read_to_end|count|appended|other", format!("read_to_end on {} appended {} bytes but returned {}", hp, v.len(), n)));
                 }
                 h.pos = len;
             }
